@@ -77,10 +77,23 @@ impl ServerMessageProcessor {
         connection: &mut AsyncConnection,
         server_context: &mut context::ServerContext,
     ) -> Result<bool, Box<dyn Error + Sync + Send>> {
-        let messages = std::mem::take(&mut self.pending_messages);
-        for msg in messages {
-            if self.handle_message(msg, connection, server_context).await? {
-                return Ok(true); // Shutdown requested
+        let mut messages = std::mem::take(&mut self.pending_messages).into_iter();
+        while let Some(msg) = messages.next() {
+            let result = self.handle_message(msg, connection, server_context).await;
+            if !matches!(result, Ok(false)) {
+                // Shutdown requested (or the wait for `exit` failed): requests queued
+                // behind it still get an answer
+                for msg in messages {
+                    if let Message::Request(req) = msg {
+                        let response = lsp_server::Response::new_err(
+                            req.id,
+                            lsp_server::ErrorCode::InvalidRequest as i32,
+                            "server is shutting down".to_owned(),
+                        );
+                        let _ = connection.send(response.into());
+                    }
+                }
+                return result;
             }
         }
         Ok(false)
